@@ -547,7 +547,9 @@ def _item_exp(it, ph, helpers):
     raise ValueError(it)
 
 
-def _erase(e):
+def _erase(e, same=None):
+    if same:
+        return tuple(same.get(s, s) for s in e if s[0] != 'E')
     return tuple(s for s in e if s[0] != 'E')
 
 
@@ -556,20 +558,23 @@ def construction_may_fail(g, placeholders=True):
     alternatives differing only in alias or placeholder positions) that erase to the same non-empty symbol sequence --
     the documented GrammarError("Rules defined twice ... colliding expansion of optionals") case.  Only used in the
     direction GrammarError => predicate."""
+    # an anonymous literal whose text is the pattern of a named terminal *is* that terminal
+    same = {('lit', t.pats[0][1]): ('tok', t.name) for t in g.terms.values()
+            if len(t.pats) == 1 and t.pats[0][0] == 'str' and not t.pats[0][2]}
     try:
         for r in g.rules.values():
             helpers = []
             seen = set()
             for seq, alias in r.alts:
                 for e in _expansions(seq, placeholders, helpers):
-                    er = _erase(e)
+                    er = _erase(e, same)
                     if er and er in seen:
                         return True
                     seen.add(er)
             for body in helpers:
                 seen = set()
                 for e in body:
-                    er = _erase(e)
+                    er = _erase(e, same)
                     if er and er in seen:
                         return True
                     seen.add(er)
